@@ -115,15 +115,17 @@ def r2_subblocks(rep, crate, cfg):
         part = ("call", "base::partition", (N(("op", "Div", T, AL)), NN))
         roles = part_roles(part, ["TL", "TS", "NL", "NS"])
         roles[AL] = "Al"
-        ls = loops.LoopSummary(g, sink_e)
-        sig = loops.signature(ls, roles, norm_e)
-        # compare the two nested loops: outer over sub-blocks, inner over the symbols
-        part_sig = {"loops": tuple(l for l in sig["loops"]), "events": sig["events"]}
-        ref_l = sig_ref["loops"]
-        ok_outer = bool(sig["loops"]) and sig["loops"][0][:3] == ref_l[0][:3]
-        # carried offset: init 0, update += bytes with bytes = (s < NL ? TL*Al : TS*Al)
-        ok_upd = len(sig["loops"]) >= 2 and sig["loops"][1][4] == ref_l[1][4] and sig["loops"][0][4] == ref_l[0][4]
-        ok_ev = [e[2][1:] for e in sig["events"]] == [e[2][1:] for e in sig_ref["events"]] and len(sig["events"]) == 1
+        for gv in inline.variants(crate, g):
+            ls = loops.LoopSummary(gv, sink_e)
+            sig = loops.signature(ls, roles, norm_e)
+            # compare the two nested loops: outer over sub-blocks, inner over the symbols
+            ref_l = sig_ref["loops"]
+            ok_outer = bool(sig["loops"]) and sig["loops"][0][:3] == ref_l[0][:3]
+            # carried offset: init 0, update += bytes with bytes = (s < NL ? TL*Al : TS*Al)
+            ok_upd = len(sig["loops"]) >= 2 and sig["loops"][1][4] == ref_l[1][4] and sig["loops"][0][4] == ref_l[0][4]
+            ok_ev = [e[2][1:] for e in sig["events"]] == [e[2][1:] for e in sig_ref["events"]] and len(sig["events"]) == 1
+            if ok_outer and ok_upd and ok_ev:
+                break
         rep.check(ok_outer and ok_upd and ok_ev, R, g.key, "interleave", g.loc(),
                   "symbol m receives, for sub-block s = 0..N, bytes [offset, offset+bytes_s) with bytes_s = TL*Al for s < NL else TS*Al, "
                   "offset advancing by bytes_s per (s, m) (roles of Partition[T/Al, N] as in the RFC)",
@@ -178,26 +180,61 @@ def r4(rep, crate, cfg):
                 return ct[1].split("::")[-1]
             return None
         ls = loops.LoopSummary(f, sink)
-        # zero padding appended only when end > data.len()
-        pads = [e for e in ls.events if e["sink"] in ("extend", "extend_from_slice", "resize")]
+        # the data of block i: data[start..end] when it lies inside the object, else data[start..] followed by end - len zeros
+        from .. import seqs
         okp = False
-        if len(pads) == 1:
-            e = pads[0]
-            dnf = dec.conds_of(ls, e["block"])
+        det = {}
+        wps0 = [e for e in ls.events if e["sink"] == "with_encoding_plan"]
+        if len(wps0) == 1 and wps0[0]["loop"] is not None:
+            e = wps0[0]
             it = ("item", e["loop"])
+            start = ("field", ("field", it, 1), 0)
             end = ("field", ("field", it, 1), 1)
             LEN = ("call", "std::slice::<impl [T]>::len", (P(1),))
-            gt = N(("op", "Lt", LEN, end))
-            v = N(e["args"][1])
-            zero = terms.find(("call", "std::vec::from_elem", (("const", 0), V("n"))), v)
-            okp = dec.must(dnf, gt, True) and zero is not None and N(zero[0]["n"]) == N(("op", "Sub", end, LEN))
-            # the padded buffer starts with the data tail data[start..]
-            start = ("field", ("field", it, 1), 0)
-            base = N(e["args"][0])
-            okp = okp and terms.find(("call", "std::ops::Index::index", (P(1), ("agg", "adt:std::ops::RangeFrom", (start,)))), base) is not None
+            blockt = e["args"][2]
+            while blockt[0] in ("ref", "deref", "deref*"):
+                blockt = blockt[1]
+            m = match(("ite", V("c"), V("a"), V("b")), N(blockt)) or match(("ite", V("c"), V("a"), V("b")), blockt)
+            det["block"] = fmt(blockt)[:200]
+            if m is not None:
+                c, a, b = N(m["c"]), m["a"], m["b"]
+                if c == N(("op", "Le", end, LEN)):
+                    a, b = b, a
+                    c = N(("op", "Lt", LEN, end))
+                if c == N(("op", "Lt", LEN, end)):
+                    # a: the padded vector, b: the in-range slice
+                    inr = seqs.stream_or_elems(crate, b)
+                    inr = [seqs.norm_seg(g) for g in inr] if inr else []
+                    DATA = P(1)
+
+                    def is_tail(g, upto=None):
+                        want_cnt = seqs.norm_seg(seqs.seg(("op", "Sub", upto if upto is not None else ("len", DATA), start), None))["count"]
+                        return g["cond"] is None and g["count"] == want_cnt and \
+                            seqs._strip_refs(g["value"]) == N(("index", DATA, ("op", "Add", start, seqs.IX)))
+                    ok_in = len(inr) == 1 and is_tail(inr[0], end)
+                    base = seqs._strip_refs(ls.canon(a))
+
+                    def sink2(ct, t):
+                        if ct[0] == "call" and isinstance(ct[1], str):
+                            sh = ct[1].split("::")[-1]
+                            if ct[1].endswith("Vec::<T, A>::push"):
+                                return "push"
+                            if sh in ("extend", "extend_from_slice", "resize"):
+                                return sh
+                        return None
+                    ls2 = loops.LoopSummary(f, sink2)
+                    base2 = seqs._strip_refs(ls2.canon(a))
+                    segs, problems = seqs.segments_of_value(crate, f, ls2, base2, lambda blk_: [frozenset()], scope_loop=e["loop"])
+                    segs = [seqs.norm_seg(g) for g in segs]
+                    det["padded"] = [{"count": fmt(g["count"])[:80], "value": fmt(g["value"])[:80]} for g in segs]
+                    det["problems"] = problems
+                    zeros = seqs.norm_seg(seqs.seg(("op", "Sub", end, ("len", DATA)), ("const", 0)))
+                    ok_pad = not problems and len(segs) == 2 and is_tail(segs[0]) and segs[1]["cond"] is None and \
+                        segs[1]["count"] == zeros["count"] and segs[1]["value"] == ("const", 0)
+                    okp = ok_in and ok_pad
         rep.check(okp, R, f.key, "zero-padding-at-tail", f.loc(),
                   "a block is extended only when it reaches past the data (end > data.len()), by exactly end - data.len() zero bytes after data[start..]",
-                  {"events": loops.render(ls)[:300]}, cfg)
+                  det, cfg)
         wps = [e for e in ls.events if e["sink"] == "with_encoding_plan"]
         oki = len(wps) == 1 and N(wps[0]["args"][0]) == ("field", ("item", wps[0]["loop"]), 0) and N(wps[0]["args"][1]) in (P(2), ("ref", P(2)))
         rep.check(oki, R, f.key, "block-numbers", f.loc(), "block encoder i gets source block number i (enumeration index) and the object's configuration", None, cfg)
